@@ -67,7 +67,7 @@ func cmdC11(args []string) int {
 			long = hg.longHays()
 		}
 		if src == "huge" {
-			long = append(long, hg.hugeHays(120000)...)
+			long = append(long, hg.hugeHays(20000)...)
 		}
 		for j := 0; j < nhay+len(long); j++ {
 			var h []byte
